@@ -107,12 +107,12 @@ def assocD {α} (l : List (String × List α)) (n : String) : List α := ((l.fin
 
 /-- `_extend_object_type` / `_extend_interface_type` / `_extend_union_type` / `_extend_enum_type` /
     `_extend_input_object_type` / `_extend_scalar_type`: the rebuilt object is written at `N[name]` -/
-def extendOne (cfg : Cfg) (ext : Ext) (N : List (String × Addr)) (h : Heap) (t : TypeO) (na : Addr) : Heap :=
+def extendOne (cfg : Cfg) (ext : Ext) (N Nin : List (String × Addr)) (h : Heap) (t : TypeO) (na : Addr) : Heap :=
   let r : Heap × List Addr :=
     match t.kind with
     | .input =>
       let r1 := extendArgs cfg.extInputPy N h t.fields
-      let r2 := buildArgs N r1.1 (assocD ext.inputFields t.name)
+      let r2 := buildArgs Nin r1.1 (assocD ext.inputFields t.name)
       (r2.1, r1.2 ++ r2.2)
     | .object | .interface =>
       let r1 := extendFields cfg N h t.fields
@@ -133,13 +133,13 @@ def extendOne (cfg : Cfg) (ext : Ext) (N : List (String × Addr)) (h : Heap) (t 
       values := t.values ++ (assocD ext.values t.name).map fun v => v ++ "|None|None" }
   r.1.write na (.type t')
 
-def extendAll (cfg : Cfg) (ext : Ext) (N P : List (String × Addr)) : Heap → Heap → List (String × Addr) → Heap
+def extendAll (cfg : Cfg) (ext : Ext) (N Nin P : List (String × Addr)) : Heap → Heap → List (String × Addr) → Heap
   | _, h, [] => h
   | h0, h, (n, a) :: rest =>
-    if isProtected n then extendAll cfg ext N P h0 h rest else
+    if isProtected n then extendAll cfg ext N Nin P h0 h rest else
     match h0.readType a, lookup P n with
-    | some t, some na => extendAll cfg ext N P h0 (extendOne cfg ext N h t na) rest
-    | _, _ => extendAll cfg ext N P h0 h rest
+    | some t, some na => extendAll cfg ext N Nin P h0 (extendOne cfg ext N Nin h t na) rest
+    | _, _ => extendAll cfg ext N Nin P h0 h rest
 
 def buildNewTypes (N P : List (String × Addr)) : Heap → List (String × List ExtField) → Heap
   | h, [] => h
@@ -179,7 +179,9 @@ def extend (cfg : Cfg) (ext : Ext) (s : Schema) (h : Heap) : Heap × Schema :=
   let newNames := ext.newTypes.map (·.1)
   let p := allocPlaceholders h (srcNames ++ newNames)
   let N := (s.types.filter fun e => isProtected e.1) ++ p.2
-  let h1 := extendAll cfg ext N p.2 h p.1 s.types
+  -- `_build_input_field(ext_field)` resolves names through `_cache` (= the types of the schema being extended)
+  let Nin := if cfg.extInputFieldExtended then N else s.types ++ N
+  let h1 := extendAll cfg ext N Nin p.2 h p.1 s.types
   let h2 := buildNewTypes N p.2 h1 ext.newTypes
   let d1 := extendDirs cfg N h2 s.dirs
   let d2 := buildNewDirs cfg N d1.1 ext.newDirs
